@@ -49,7 +49,7 @@ def cases(tier):
             for strat in ("fixedinterval", "fixedpoint"):
                 out.append(f"interp/{ssm}/{strat}/none/ts0/o1q1d2/damp_zero")
         out.append("sets/pi/noclip/o2i3")
-        out.append("chain/pi/clip/o2i3")
+        out.append("chain/pi/noclip/o2i3")
     return out
 
 
